@@ -123,6 +123,38 @@ CHECKS.update({
     ),
 })
 
+CHECKS.update({
+    "C16": dict(
+        engine="HashStream.tla, HashStream_Eval.tla", category="model_checking",
+        text="HashStream.tla models the streaming digest loop (file of L bytes, buffer capacity Cap, every pattern "
+             "of short reads, a tuple of hash objects): PrefixFed and ResultExact are invariants; the variants "
+             "'update(whole buffer)' and 'skip short reads' are refuted. Every TLC behaviour (all read patterns "
+             "for L in 0..2Cap+1) is imposed on the real hash_checksums through a raw-file shim and the chunks "
+             "each hash object receives are compared; real files around the multiples of the real 128 KiB buffer "
+             "are hashed with recording hash objects and judged by TLC; every checksum recorded in real metadata "
+             "(shards, lists, description; write_config / current_metadata_checksums) equals the digest computed "
+             "by md5sum / sha*sum / openssl dgst -sha3-* / a pure-Python xxHash32/64, in configured order.",
+        design_ref="DESIGN.md 3.5, 5/C16",
+        note="Data-level component (which function a name denotes) is checked against external tools on sampled "
+             "contents; xxhash's one-shot xxh128 is the trusted reference for xxh128.",
+        technique="TLA+ model checking of the read loop + replay of every TLC read pattern + independent digests",
+    ),
+    "C17": dict(
+        engine="PathGuard.tla, PathGuard_Eval.tla", category="model_checking",
+        text="PathGuard.tla enumerates every path string (<=4/5 components over {names, '.', '..', ''}, 0..3 leading "
+             "slashes) and checks Guard(p) => Inside(root, Resolve(Join(root, p))). Each string is rendered and "
+             "TLC (PathGuard_Eval) judges, against the real library: pathlib/os.path agreement of the model's path "
+             "semantics, validator acceptance (FileInfo, ShardListInfo, ShardsList, filler sub-directory) = Guard, "
+             "and accepted => inside. Accepted strings are planted in every path-valued metadata field of a real "
+             "dataset (with decoys where they resolve to) which is opened, checked and iterated with all file "
+             "opens recorded by an audit hook; the filler is run with each string as sub-directory.",
+        design_ref="DESIGN.md 3.5, 5/C17",
+        note="Symlinks, case-insensitive file systems and ~ expansion are outside the quantifier. Opens made by "
+             "TensorFlow / Rust are judged through the paths Python hands to them.",
+        technique="TLA+ exhaustive enumeration of path strings + TLC-judged replay on validators and planted metadata",
+    ),
+})
+
 NOT_YET = {}
 
 ALL = [f"C{i:02d}" for i in range(1, 21)]
